@@ -40,7 +40,7 @@ package config
 //@   props C19 C13
 //@   noframe
 //@   requires nw != nil && nw.logger != nil
-//@   callsite set requires[C19] keep-last-good: len(errs) == 0
+//@   callsite (*memoryNamespaceManager).set requires[C19] keep-last-good: len(errs) == 0
 //@   loop 1 invariant (isnil(namespaces) || fresh(namespaces)) && (forall i in 0..len(namespaces) :: namespaces[i] != nil)
 //@   loop 3 invariant (isnil(namespaces) || fresh(namespaces)) && (forall i in 0..len(namespaces) :: namespaces[i] != nil)
 //@   loop 1 step[C19] stored-reader-stays-readable: err == nil ==> has(nw.files.byPath, path) && !rdconsumed(nw.files.byPath[path])
